@@ -965,6 +965,9 @@ fn main() {
             notes.extend(rw.notes.iter().cloned());
             let indent = &line[..line.len() - t.len()];
             out.push(&format!("{}{{", indent), &format!("tmpl:{}", spec.tmpl_line));
+            if std::env::var("VEXTRACT_TWIN").is_ok() {
+                out.push(&format!("\n        assert(false); // TWIN {}", spec.func), &format!("tmpl:{}", spec.tmpl_line));
+            }
             if !spec.prologue.is_empty() {
                 out.push(&format!("\n{}", spec.prologue), &format!("tmpl:{}", spec.tmpl_line));
             }
@@ -1016,15 +1019,25 @@ fn main() {
 
 /// --lockscan file...: list every `.lock()` / `.try_lock()` call with byte offset and receiver key
 fn lockscan(repo: &str, files: &[String]) {
-    struct V<'a> { src: &'a SourceFile }
+    struct V<'a> { src: &'a SourceFile, fns: Vec<String> }
     impl<'a, 'ast> Visit<'ast> for V<'a> {
         fn visit_expr_method_call(&mut self, m: &'ast syn::ExprMethodCall) {
             let name = m.method.to_string();
             if (name == "lock" || name == "try_lock") && m.args.is_empty() {
                 let (s, _) = self.src.range(m.method.span());
-                println!("{}\t{}\t{}\t{}", self.src.rel, s, self.src.line_of(s), recv_key(&m.receiver));
+                println!("{}\t{}\t{}\t{}\t{}", self.src.rel, s, self.src.line_of(s), recv_key(&m.receiver), self.fns.last().cloned().unwrap_or_default());
             }
             visit::visit_expr_method_call(self, m);
+        }
+        fn visit_impl_item_fn(&mut self, f: &'ast syn::ImplItemFn) {
+            self.fns.push(f.sig.ident.to_string());
+            visit::visit_impl_item_fn(self, f);
+            self.fns.pop();
+        }
+        fn visit_item_fn(&mut self, f: &'ast syn::ItemFn) {
+            self.fns.push(f.sig.ident.to_string());
+            visit::visit_item_fn(self, f);
+            self.fns.pop();
         }
         fn visit_macro(&mut self, mac: &'ast syn::Macro) {
             if let Ok(args) = mac.parse_body_with(Punctuated::<Expr, Token![,]>::parse_terminated) {
@@ -1040,7 +1053,7 @@ fn lockscan(repo: &str, files: &[String]) {
     }
     for f in files {
         let src = SourceFile::load(repo, f);
-        let mut v = V { src: &src };
+        let mut v = V { src: &src, fns: vec![] };
         v.visit_file(&src.ast);
     }
 }
